@@ -3,7 +3,7 @@ use std::io;
 use crate::entity::{serialize_attribute, serialize_cdata, serialize_text};
 use crate::error::Error;
 use crate::id::NameId;
-use crate::output::Normalizer;
+use crate::output::{NoopNormalizer, Normalizer};
 use crate::xotdata::{Node, Xot};
 
 use super::fullname::FullnameSerializer;
@@ -159,7 +159,8 @@ impl<'a, N: Normalizer> XmlSerializer<'a, N> {
                         format!("<{} xmlns=\"\"", fullname)
                     } else if let Some(namespace_id) = redeclare {
                         let namespace = self.xot.namespace_str(namespace_id);
-                        let namespace = serialize_attribute(namespace.into(), &self.normalizer);
+                        // (a namespace name is an identifier, not text: it is escaped but never normalized)
+                let namespace = serialize_attribute(namespace.into(), &NoopNormalizer);
                         format!("<{} xmlns=\"{}\"", fullname, namespace)
                     } else {
                         format!("<{}", fullname)
@@ -218,7 +219,8 @@ impl<'a, N: Normalizer> XmlSerializer<'a, N> {
                 }
                 let namespace = self.xot.namespace_str(*namespace_id);
                 // the URI is written as an attribute value
-                let namespace = serialize_attribute(namespace.into(), &self.normalizer);
+                // (a namespace name is an identifier, not text: it is escaped but never normalized)
+                let namespace = serialize_attribute(namespace.into(), &NoopNormalizer);
                 if *prefix_id == self.xot.empty_prefix_id {
                     OutputToken {
                         space: true,
